@@ -583,7 +583,24 @@ def run(run, ctx):
     _floors(run, ctx, 1.0 / max(1, ctx.nshards))
 
 
-FLOORS = {}
+# about 1/4 of what the quick tier observes on the unchanged tree (seed 0);
+# the thorough tier scales with its number of cases
+FLOORS_QUICK = {
+    "struct_compared:pandas": 430, "struct_compared:polars": 300,
+    "struct_equal": 500, "to_schema_stable_checked": 750,
+    "twin_order_compared": 700, "ancestor_unchanged_checked": 1900,
+    "other_class_unchanged_checked": 850,
+    "validate_pair:pandas:eager": 1250, "validate_pair:pandas:lazy": 1200,
+    "validate_pair:polars:eager": 850, "validate_pair:polars:lazy": 850,
+    "verdict_equal": 4000, "validate_via_Model(df)": 500,
+    "field:override": 270, "field:alias": 500, "field:regex": 90,
+    "field:optional": 280, "method:checks:override": 170,
+    "method:df_checks:override": 75, "method:parsers:override": 40,
+    "config:subclass": 70, "config:plain": 360,
+    "outcome:ok": 1700, "outcome:SchemaError": 1000,
+    "outcome:SchemaErrors": 1000, "custom_method_called:check": 6000,
+    "class_depth:3": 180,
+}
 
 
 def _floors(run, ctx, scale):
@@ -591,8 +608,9 @@ def _floors(run, ctx, scale):
 
 
 def finalize(run, ctx):
-    for name, m in FLOORS.get(ctx.tier, {}).items():
-        run.floors[name] = m
+    scale = N[ctx.tier] / N["quick"]
+    for name, m in FLOORS_QUICK.items():
+        run.floors[name] = int(m * scale)
 
 
 def replay(path):
